@@ -1727,9 +1727,12 @@ func (tx *SQLTx) doUpsert(ctx context.Context, pkEncVals []byte, valuesByColID m
 			}
 		}
 
-		encodedValues := make([][]byte, 2+len(index.cols))
+		// the transient entry has the layout of the committed one, primary key included:
+		// rows of one transaction with equal indexed values must not share an entry
+		encodedValues := make([][]byte, 2+len(index.cols)+1)
 		encodedValues[0] = EncodeID(table.id)
 		encodedValues[1] = EncodeID(index.id)
+		encodedValues[len(encodedValues)-1] = pkEncVals
 
 		indexKeyLen := 0
 
@@ -1761,7 +1764,7 @@ func (tx *SQLTx) doUpsert(ctx context.Context, pkEncVals []byte, valuesByColID m
 
 		// no other equivalent entry should be already indexed
 		if index.IsUnique() {
-			_, valRef, err := tx.getWithPrefix(ctx, smkey, nil)
+			_, valRef, err := tx.getWithPrefix(ctx, MapKey(tx.sqlPrefix(), MappedPrefix, encodedValues[:len(encodedValues)-1]...), nil)
 			if err == nil && (valRef.KVMetadata() == nil || !valRef.KVMetadata().Deleted()) {
 				return store.ErrKeyAlreadyExists
 			} else if !errors.Is(err, store.ErrKeyNotFound) {
